@@ -42,6 +42,11 @@ ASSUMPTIONS = [
     'solve_phase_fraction_Rashford_Rice the single-phase early exits and the end-point sign tests are modelled (sv=), the '
     'iterated root is a parameter monitored to bracket a sign change of the exact objective within 2e-6 (root=, K > 0 only); '
     'oracle: both phases non-empty => every equilibrium chemical in both and returned phi = top share within 1e-5',
+    'exceptions: ZeroDivisionError / FloatingPointError / ReferenceError are tolerated only from the lle / vle wrappers (external '
+    'solvers; ReferenceError is retried once) and only up to 25 % of a worker\'s lle/vle calls; any exception from any other helper '
+    'on an in-domain input is an oracle failure',
+    'the composition-balance correspondence is not compared once an iteration was shifted (exact and float loops differ: tag '
+    'shift-history); an exactly singular inlet matrix is not compared either (LAPACK may not notice); oracle applies to invertible ones',
     'rows left by MultiStream.lle / .vle are parameters; monitored hypotheses: the rows the equilibrium routine is entered '
     'with are exactly the feed in `l` and nothing elsewhere whatever the multi_stream holder held (load=), and the rows it '
     'leaves sum to the feed (hyp=, C03)',
@@ -114,7 +119,7 @@ def setup():
 
 def budget(tier):
     return {'quick': dict(seconds=70, cases=2400, shrink_s=20, search_s=5),
-            'thorough': dict(seconds=480, cases=100000, shrink_s=40, search_s=20)}[tier]
+            'thorough': dict(seconds=480, cases=60000, shrink_s=40, search_s=20)}[tier]
 
 
 # --------------------------------------------------------------------------
@@ -236,6 +241,16 @@ def op_am(d, o):
     MW = MWS[n]
     R0, P0 = list(d['R']), list(d['P'])
     r, p = mk(n, R0), mk(n, P0)
+    if d.get('multi'):
+        # both outlets are MultiStreams (the `('l', ID)` keys of the code): the moisture chemical in the liquid,
+        # every other chemical alternately in the solid / liquid row
+        def mkms(fl):
+            ms = tmo.MultiStream(None, phases='ls', thermo=THERMO[n])
+            ms.imol['l'] = np.array([x if (i == k or i % 2 == 0) else 0.0 for i, x in enumerate(fl)], float)
+            ms.imol['s'] = np.array([0.0 if (i == k or i % 2 == 0) else x for i, x in enumerate(fl)], float)
+            return ms
+        r, p = mkms(R0), mkms(P0)
+        solid0 = ([float(x) for x in r.imol['s'].to_array()], [float(x) for x in p.imol['s'].to_array()])
     ID = None if mode == 'mol' else CHEMS[k]
     line = (f'am n={n} R={V(R0)} P={V(P0)} MW={V(MW)} k={k} mode={mode} mwc={frac(MW_WATER_LITERAL)} mc={frac(mc)} '
             f'strict={"none" if strict is None else int(strict)}')
@@ -255,6 +270,10 @@ def op_am(d, o):
         return
     R1, P1 = arr(r), arr(p)
     o.emit(line, f'am R={V(R1)} P={V(P1)}')
+    if d.get('multi'):
+        o.tags.append('am:multistream')
+        if ([float(x) for x in r.imol['s'].to_array()], [float(x) for x in p.imol['s'].to_array()]) != solid0:
+            o.fail('adjust_moisture:solid-row-changed', 'the solid rows of the MultiStream outlets were modified')
     check_balance(o, 'adjust_moisture', [a + b for a, b in zip(R0, P0)], [R1, P1], f'(strict={strict})')
     check_nonneg(o, 'adjust_moisture', [R1, P1], f'(strict={strict})')
     if avail < required - margin and strict in (None, True):
@@ -313,10 +332,19 @@ def op_msm(d, o):
     o.tags.append('msm')
 
 
-def emit_bpf(o):
-    """the dispatch of binary_phase_fraction.phase_fraction, from the recorded call"""
+def emit_bpf(o, feed0=None, ids=None, K=None, topc=(), botc=()):
+    """the dispatch of binary_phase_fraction.phase_fraction.  The fractions handed to the model are recomputed here from
+    the feed (z = mol/F, za = Fa/F, zb = Fb/F with F = sum(IDs) + Fa + Fb), NOT taken from what the code passed on."""
     if 'pf_args' not in REC or 'pf' not in REC: return
     zs, ks, za, zb = REC['pf_args']
+    if feed0 is not None:
+        Fa = float(sum(feed0[i] for i in topc)); Fb = float(sum(feed0[i] for i in botc))
+        F = float(sum(feed0[i] for i in ids)) + (Fa + Fb)
+        zs2, za2, zb2 = [feed0[i] / F for i in ids], Fa / F, Fb / F
+        # (no failure is raised when the code passed other numbers on: the root is invariant under a common scaling of
+        #  z, za, zb, so e.g. normalising by another total is a harmless refactor; what matters is that the returned
+        #  phi is a root for THESE fractions - the driver's root= monitor - and the oracle on the outlets)
+        zs, ks, za, zb = zs2, list(K), za2, zb2
     called = 'solver' in REC
     o.emit(f'bpf zs={V(zs)} ks={V(ks)} za={frac(za)} zb={frac(zb)} solver={frac(REC.get("solver", 0.0))} '
            f'x0={frac(1e-16 if za else 0.)} x1={frac((1 - 1e-16) if zb else 1.)}',
@@ -336,6 +364,11 @@ def op_pt(d, o):
     kw = {}
     if topc: kw['top_chemicals'] = names(n, topc)
     if botc: kw['bottom_chemicals'] = names(n, botc)
+    if d.get('bare'):
+        # the docstring form: a single forced chemical given as a bare string (phase_fraction accepts that for
+        # bottom_chemicals only: fixes_proposed/C20-7.md)
+        if len(botc) == 1: kw['bottom_chemicals'] = CHEMS[botc[0]]
+        if len(topc) == 1 and not d.get('only_fraction'): kw['top_chemicals'] = CHEMS[topc[0]]
     def call(top0, bot0, only_fraction=False):
         REC.clear()
         feed, top, bottom = mk(n, feed0), mk(n, top0), mk(n, bot0)
@@ -350,6 +383,9 @@ def op_pt(d, o):
                     phi = sep.partition(feed, top, bottom, names(n, ids), np.array(K, float), strict=strict, **kw)
             except tmo.exceptions.InfeasibleRegion:
                 return 'infeasible', None, None, None, feed0
+            except FloatingPointError:
+                if d.get('empty'): return 'zerodiv', None, None, None, feed0
+                raise
         clip = any('negative flow' in str(w.message) for w in wl)
         if not only_fraction and sum(top.mol[i] for i in ids) > 0 and sum(bottom.mol[i] for i in ids) > 0:
             # achieved coefficients as the library itself computes them from the two outlets
@@ -357,18 +393,36 @@ def op_pt(d, o):
         return float(phi), arr(top), arr(bottom), clip, (feed0 if alias else arr(feed))
     if d.get('only_fraction'):
         phi, _, _, clip, _ = call(None, None, True)
-        if 'pf' not in REC: return
-        emit_bpf(o)
+        if 'pf' not in REC and phi != 'zerodiv': return
+        if phi != 'zerodiv': emit_bpf(o, feed0, ids, K, topc, botc)
         line = (f'pf n={n} feed={V(feed0)} ids={NL(ids)} K={V(K)} topc={NL(topc)} botc={NL(botc)} '
-                f'phi={frac(REC["pf"])} strict={int(strict)}')
+                f'phi={frac(REC.get("pf", 0.0))} strict={int(strict)}')
+        if phi == 'zerodiv':
+            o.emit(line, 'pf err=zerodiv'); o.tags.append('pf:empty-feed')
+            return
         o.emit(line, 'pf err=infeasible' if phi == 'infeasible' else f'pf phi={frac(phi)}')
+        # oracle: separations.phase_fraction answers what partition returns on the same input
+        pf_val = phi
+        phi_p, t_p, b_p, _, _ = call(None, None, False)
+        if (pf_val == 'infeasible') != (phi_p == 'infeasible'):
+            o.fail('phase_fraction:differs-from-partition', f'phase_fraction gave {pf_val!r}, partition {phi_p!r} (K={K}, ids={ids}, topc={topc}, botc={botc})')
+        elif pf_val != 'infeasible' and abs(pf_val - phi_p) > 1e-9:
+            o.fail('phase_fraction:differs-from-partition', f'phase_fraction returned {pf_val!r} but partition returned {phi_p!r} on the same input (K={K}, ids={ids}, topc={topc}, botc={botc})')
+        if pf_val != 'infeasible' and not (0.0 <= pf_val <= 1.0):
+            o.fail('phase_fraction:range', f'phase_fraction returned {pf_val!r}')
         o.tags.append('pf')
         return
     phi, t, b, clip, f_after = call(d.get('top0'), d.get('bot0'))
-    if 'pf' not in REC: return
-    emit_bpf(o)
+    if 'pf' not in REC and phi != 'zerodiv': return
+    if phi == 'zerodiv': pass
+    elif alias == 'bottom': emit_bpf(o)          # the feed was destroyed before the fractions were formed (C20-6)
+    else: emit_bpf(o, feed0, ids, K, topc, botc)
     line = (f'pt n={n} feed={V(feed0)} bot0={V(d.get("bot0") or [])} ids={NL(ids)} K={V(K)} topc={NL(topc)} '
-            f'botc={NL(botc)} phi={frac(REC["pf"])} strict={int(strict)}' + (f' alias={alias}' if alias else ''))
+            f'botc={NL(botc)} phi={frac(REC.get("pf", 0.0))} strict={int(strict)}' + (f' alias={alias}' if alias else ''))
+    if phi == 'zerodiv':
+        # nothing to partition (F_mol = 0): numpy's 0/0 under thermosteam's error state -> FloatingPointError
+        o.emit(line, 'pt err=zerodiv'); o.tags.append('pt:empty-feed')
+        return
     if alias and not (alias == 'top' and not any(feed0[i] for i in botc)):
         # Outside what the code supports (fixes_proposed/C20-6.md): `bottom is feed` loses the feed, `top is feed` with
         # forced-bottom chemicals gives them a negative top flow.  The behaviour is mirrored by the model; the property
@@ -377,8 +431,15 @@ def op_pt(d, o):
                f'pt phi={frac(phi)} top={V(t)} bot={V(b)} clip={int(clip)} kok={int(k_spread(ids, K, t, b) <= 1e-7)}')
         o.tags.append(f'pt:alias-{alias}:unsupported')
         return
+    if phi == 'zerodiv':
+        # nothing to partition (F_mol = 0): numpy's 0/0 under thermosteam's error state -> FloatingPointError
+        o.emit(line, 'pt err=zerodiv'); o.tags.append('pt:empty-feed')
+        return
     if phi == 'infeasible':
         o.emit(line, 'pt err=infeasible')
+        if all(1e-3 <= k <= 1e3 for k in K) and all(x >= 0 for x in feed0):
+            # K > 0 and a non-negative feed: the equilibrium split lies in [0, feed]; nothing is infeasible
+            o.fail('partition:spurious-infeasible', f'InfeasibleRegion for a non-negative feed and positive K (K={K}, ids={ids}, feed={feed0})')
         o.tags.append('pt:infeasible'); o.nontrivial = True
         return
     in_domain = all(1e-3 <= k <= 1e3 for k in K)
@@ -417,6 +478,14 @@ def op_pt(d, o):
             o.fail('partition:K-not-reproduced',
                    f'both outlets hold material but {[CHEMS[i] for i in missing]} (K finite, > 0) are absent from one of them: '
                    f'achieved K is 0 or infinite; top={t} bottom={b} {what}')
+        # y_i / x_i = K_i with the mole fractions taken over the whole phase (equilibrium + forced chemicals): the
+        # "common factor" of the property text is exactly accounted for, nothing arbitrary is left
+        for i, k in zip(ids, K):
+            if feed0[i] > 0 and t[i] > 0 and b[i] > 0:
+                kach_i = (t[i] / top_part) / (b[i] / bot_part)
+                if 0 < phi < 1 and abs(kach_i / k - 1) > 2e-5 / max(min(phi, 1 - phi), 1e-6):
+                    o.fail('partition:K-not-reproduced', f'{CHEMS[i]}: y/x over the two phases is {kach_i!r}, given K = {k!r} {what}')
+                    break
         share = top_part / (top_part + bot_part)
         if abs(phi - share) > 1e-5:
             o.fail('partition:phi-inconsistent', f'returned phase fraction {phi!r} but the top phase holds {share!r} of the partitioned material {what}')
@@ -500,6 +569,13 @@ def op_lle(d, o):
     check_balance(o, 'lle', feed0, [t, b], what)
     check_nonneg(o, 'lle', [t, b], what)
     if arr(feed) != feed0: o.fail('lle:feed-changed', 'lle changed its feed')
+    if eff < 1:
+        # "The rest of the feed is divided equally between phases": each outlet = efficiency·(its row) + (1−efficiency)/2·feed
+        def fits(rt, rb):
+            return all(near(t[i], eff * rt[i] + (1 - eff) / 2 * feed0[i], 1e-3) and
+                       near(b[i], eff * rb[i] + (1 - eff) / 2 * feed0[i], 1e-3) for i in range(n))
+        if not (fits(rL, rl) or fits(rl, rL)):
+            o.fail('lle:efficiency-mixing', f'outlets are not efficiency·row + (1−efficiency)/2·feed for either assignment of the rows {what}')
     if (d.get('top0') or d.get('bot0')) and not d.get('holder') and not stale_holder:
         # same call with empty outlets.  Not done when the holder has a history: the equilibrium routine starts from
         # the K / phi it kept from the previous call and may stop at another point within its own resolution (C15's
@@ -614,6 +690,10 @@ def op_mb(d, o):
         return
     new = [arr(s) for s in vin]
     o.emit(line, f'mb vin={VS(new)} res=1')
+    # the property quantifies over INVERTIBLE inlet-composition matrices (exact determinant of the generated data)
+    if _det([[Fraction(v[c]) for v in d['vin']] for c in idx]) == 0:
+        o.tags.append('mb:singular-not-noticed')
+        return
     scale = max([abs(x) for s in d['cout'] + d['cin'] for x in s] + [1.0])
     for c in idx:
         r = sum(s[c] for s in new) + sum(s[c] for s in d['cin']) - sum(s[c] for s in d['cout'])
@@ -704,11 +784,16 @@ def op_mbc(d, o):
 
 
 OPS = {'mbc': op_mbc, 'ms': op_ms, 'am': op_am, 'msm': op_msm, 'pt': op_pt, 'lle': op_lle, 'vle': op_vle, 'ps': op_ps, 'cs': op_cs, 'mb': op_mb}
-# Not findings: numerical give-ups of the external solvers on inputs outside the property's domain, and numba's
+# Tolerated ONLY for the lle / vle wrappers (and for `wild` out-of-domain partition inputs), and only up to SKIP_BOUND of
+# the calls: numerical give-ups of the external equilibrium solvers, and numba's
 # cache writer failing with `ReferenceError: underlying object has vanished` while pickling the overload index of a
 # kernel that takes a function argument (dew_point.solve_x(…, gamma.f, …)) when NUMBA_CACHE_DIR is set (./check sets
 # it): an environment flake of numba's on-disk cache, GC-timing dependent, unrelated to the property.
 SOLVER_ERRORS = (ZeroDivisionError, FloatingPointError, ReferenceError)
+
+
+SKIP = {'ops': 0, 'skipped': 0}       # per worker process: lle / vle calls and how many of them were given up
+SKIP_BOUND, SKIP_MIN_OPS = 0.25, 24
 
 
 def run_impl(case: Case) -> ImplResult:
@@ -717,13 +802,26 @@ def run_impl(case: Case) -> ImplResult:
         kind, _, js = line.partition(' ')
         d = json.loads(js)
         tmo.settings.set_thermo(THERMO[d['n']])
+        external = kind in ('lle', 'vle')          # the only helpers that run an iterative thermodynamic solver
+        if external: SKIP['ops'] += 1
         try:
-            OPS[kind](d, o)
-        except SOLVER_ERRORS as e:
-            o.tags.append(f'skipped:{kind}:{type(e).__name__}')
+            try:
+                OPS[kind](d, o)
+            except ReferenceError:
+                # numba's on-disk cache writer (see SOLVER_ERRORS): the kernel itself compiled; run the call again
+                if not external: raise
+                o.tags.append(f'retried:{kind}:ReferenceError')
+                OPS[kind](d, o)
         except Exception as e:
-            if d.get('wild'):
+            give_up = (external and isinstance(e, SOLVER_ERRORS)) or d.get('wild')
+            if give_up:
                 o.tags.append(f'skipped:{kind}:{type(e).__name__}')
+                if external:
+                    SKIP['skipped'] += 1
+                    if SKIP['ops'] >= SKIP_MIN_OPS and SKIP['skipped'] > SKIP_BOUND * SKIP['ops']:
+                        o.failures.append({'signature': 'lle-vle:too-many-skipped', 'op_index': len(o.model_in),
+                                           'what': f'{SKIP["skipped"]} of {SKIP["ops"]} lle/vle calls of this worker gave up with '
+                                                   f'{type(e).__name__} (bound {SKIP_BOUND:.0%}); last: {js[:200]}'})
             else:
                 o.failures.append({'signature': f'{kind}:unexpected-{type(e).__name__}', 'op_index': len(o.model_in),
                                    'what': f'{kind} raised {type(e).__name__}: {e} on an input inside the property\'s domain: {js[:300]}'})
@@ -770,6 +868,12 @@ def compare(impl_line, model_line):
     #    the 2-component path and the N-component path use opposite conventions); the partition theorems hold for
     #    every phi, and the `pt` line that follows is computed from the phi the real code returned;
     #  * whether a clip of the FIRST listed chemical alone is reported (`infeasible_index.any()` quirk).
+    #  * the composition-balance iteration once one of its solutions was shifted: the shift leaves an exact zero and a
+    #    factor may then decay geometrically - binary64 reaches 0.0 and stops, exact arithmetic never does; the float
+    #    and the exact loop legitimately differ in iteration count, convergence and result (oracle still applies).
+    if ta[0] == 'mbc' and 'shift-history' in paths: return True
+    #  * an exactly singular inlet matrix (outside "invertible"): LAPACK may or may not notice
+    if tb[:2] == ['mb', 'err=singular']: return True
     if ta[0] == 'bpf' and paths and paths[0] in ('allKle1', 'allKge1'):
         return ta[1] in ('phi=0', 'phi=1')
     if 'silent-clip' in paths:
@@ -818,11 +922,11 @@ def gen_K(rng, m):
     def one(lo, hi):
         e = rng.randrange(lo, hi + 1)
         k = (2.0 ** e) * (1 + rng.randrange(0, 8) / 8)
-        return min(max(k, 2.0 ** -9), 2.0 ** 9)
-    if style < 0.14:   K = [one(-9, -1) for _ in range(m)]                 # all below 1
-    elif style < 0.28: K = [one(1, 8) for _ in range(m)]                   # all above 1
+        return min(max(k, 1e-3), 1e3)               # the property's range, ends included
+    if style < 0.14:   K = [one(-11, -1) for _ in range(m)]                # all below 1
+    elif style < 0.28: K = [one(1, 10) for _ in range(m)]                  # all above 1
     elif style < 0.34: K = [rng.choice([1.0, one(-3, 3)]) for _ in range(m)]
-    else:              K = [one(-9, 8) for _ in range(m)]
+    else:              K = [one(-11, 10) for _ in range(m)]
     if style >= 0.34 and rng.random() < 0.1: K[rng.randrange(m)] = 1.0
     return K
 
@@ -856,6 +960,19 @@ def gen_holder_history(rng):
     return ops
 
 
+def _det(M):
+    M = [row[:] for row in M]; n = len(M); det = 1
+    for c in range(n):
+        piv = next((r for r in range(c, n) if M[r][c] != 0), None)
+        if piv is None: return 0
+        if piv != c: M[c], M[piv] = M[piv], M[c]; det = -det
+        det *= M[c][c]
+        for r in range(c + 1, n):
+            f = M[r][c] / M[c][c]
+            M[r] = [a - f * b for a, b in zip(M[r], M[c])]
+    return det
+
+
 def gen_op(rng):
     r = rng.random()
     n = rng.choice([1, 2, 2, 3, 3, 4, 5, 6, 6])
@@ -887,6 +1004,10 @@ def gen_op(rng):
             d['K'][rng.randrange(m)] = -rng.choice([0.25, 0.5, 2.0, 3.0]); d['wild'] = 1
         if rng.random() < 0.15: d['only_fraction'] = 1
         elif rng.random() < 0.12: d['alias'] = rng.choice(['top', 'top', 'bottom'])
+        if rng.random() < 0.3: d['bare'] = 1
+        if rng.random() < 0.02:      # nothing at all to partition: the code divides by F_mol = 0
+            d['feed'] = [0.0 if (i in ids or i in topc or i in botc) else x for i, x in enumerate(d['feed'])]
+            d['empty'] = 1
         return 'pt ' + json.dumps(d)
     if r < 0.50:                                      # mix_and_split
         k = rng.randrange(1, 5)
@@ -921,23 +1042,23 @@ def gen_op(rng):
             need = dry * mc / (1 - mc) / MW[k]
             P[k] = math.ceil(max(need - R[k], 0) * 16 + 1) / 16 + dy(rng, 64, 3)
         strict = rng.choice([None, True, False, False])
-        return 'am ' + json.dumps(dict(n=n, R=R, P=P, k=k, mode=mode, mc=mc, strict=strict))
+        return 'am ' + json.dumps(dict(n=n, R=R, P=P, k=k, mode=mode, mc=mc, strict=strict, multi=int(rng.random() < 0.25)))
     if r < 0.70:                                      # lle wrapper
         n = max(n, 2)
-        feed = flows(rng, n, 0.2)
+        feed = flows(rng, n, 0.2) if rng.random() > 0.03 else [0.0] * n
         tc = rng.choice([None, None] + [i for i in range(n) if feed[i]])
         eff = rng.choice([1.0, 1.0, rng.randrange(0, 17) / 16])
         return 'lle ' + json.dumps(dict(n=n, feed=feed, tc=tc, eff=eff, use_ms=int(rng.random() < 0.4),
                                         holder0=holder_rows(rng, n), top0=stale(rng, n), bot0=stale(rng, n)))
     if r < 0.75:                                      # vle wrapper
-        feed = flows(rng, n, 0.2)
+        feed = flows(rng, n, 0.2) if rng.random() > 0.03 else [0.0] * n
         spec = rng.choice([dict(V=rng.choice([0.0, 0.25, 0.5, 0.75, 1.0]), P=101325.0),
                            dict(T=rng.choice([300.0, 345.0, 360.0, 372.0, 400.0, 520.0]), P=101325.0),
                            dict(V=0.5, T=rng.choice([330.0, 360.0]))])
         return 'vle ' + json.dumps(dict(n=n, feed=feed, spec=spec, use_ms=int(rng.random() < 0.4),
                                         holder0=holder_rows(rng, n), vphase0=rng.choice('lg'), top0=stale(rng, n), bot0=stale(rng, n)))
     if r < 0.83:                                      # phase_split
-        phases = rng.choice(['gl', 'lL', 'gls', 'glL', 'ls'])
+        phases = rng.choice(['gl', 'lL', 'gls', 'glL', 'ls', 'l', 'g'])
         rows = [flows(rng, n, 0.3, at_least_one=False) for _ in phases]
         nout = len(phases) if rng.random() < 0.85 else rng.choice([len(phases) - 1, len(phases) + 1])
         return 'ps ' + json.dumps(dict(n=n, phases=phases, rows=rows, nout=nout, T=rng.choice([300.0, 350.0]),
@@ -976,10 +1097,23 @@ def gen_op(rng):
     k = rng.randrange(1, min(n, 4) + 1)
     idx = rng.sample(range(n), k)
     vin = []
+    style = rng.random()
     for j in range(k):
         f = [0.0 if rng.random() < 0.5 else rng.randrange(0, 9) / 8 for _ in range(n)]
-        f[idx[j]] = 4.0 + rng.randrange(0, 33) / 8          # dominant on "its" chemical
+        if style < 0.5:
+            f[idx[j]] = 4.0 + rng.randrange(0, 33) / 8          # dominant on "its" chemical
+        else:
+            # any small non-negative matrix: zero diagonal entries (pivot search), far from dominant, now and then singular
+            for c in idx: f[c] = float(rng.choice([0, 0, 1, 2, 3, 5, 8]))
+            if style < 0.75: f[idx[(j + 1) % k]] = float(rng.randrange(1, 9)); f[idx[j]] = 0.0 if k > 1 else f[idx[j]]
         vin.append(f)
+    if style >= 0.97 and k > 1: vin[-1] = [2 * x for x in vin[0]]      # exactly singular
+    if style >= 0.5:
+        # keep it moderately conditioned for the tolerance comparison (exact determinant of the integer matrix)
+        from fractions import Fraction as Fr
+        M = [[Fr(v[c]) for v in vin] for c in idx]
+        det = _det(M)
+        if det != 0 and abs(det) < 1: vin[0][idx[0]] += 8.0
     cin = [flows(rng, n, 0.4, at_least_one=False) for _ in range(rng.randrange(0, 3))]
     cout = [flows(rng, n, 0.3) for _ in range(rng.randrange(1, 3))]
     return 'mb ' + json.dumps(dict(n=n, idx=idx, vin=vin, cin=cin, cout=cout))
